@@ -141,7 +141,7 @@ ADDENDA = {
             ' Loop bodies and try body/else are visited while their statement is on the lexical scope stack, loop else and finally bodies after it has left; nestable sections keep their state in tables keyed by the section.'),
     'C06': ('totality of the state equality behind the change flag (RD-FLAG); value-type check of the lattice state class; imported CFG rules (C05) and activity traversal / parameter rules (C08)', ''),
     'C07': ('path-wise values of the block live-in annotation, annotators found by role (LV-BLOCK); value-type check of the reaching-function-definitions state; imported CFG rules (C05) and activity traversal / order / finalisation rules (C08)', ''),
-    'C08': ('no removal from the symbol sets of a scope (SCOPE-GROWS); must-traverse analysis of every ActivityAnalyzer / QnResolver handler over every field that can hold a Name (ACT-TRAV, constant-flag and literal-iteration aware); dominance-based visit order (ACT-ORDER); per-name recording of global/nonlocal lists; state-frame pairing (ACT-FRAME)',
+    'C08': ('symbolic scope-stack evaluation of the lambda handler (the calling statement receives read minus bound of the one isolated scope); comprehension-locality decided over every comprehension frame; one scope record per tag per path; no removal from the symbol sets of a scope (SCOPE-GROWS); must-traverse analysis of every ActivityAnalyzer / QnResolver handler over every field that can hold a Name (ACT-TRAV, constant-flag and literal-iteration aware); dominance-based visit order (ACT-ORDER); per-name recording of global/nonlocal lists; state-frame pairing (ACT-FRAME)',
             ' Every handler of the activity analysis and of the qualified-name resolver visits every symbol-bearing field on every path; comprehension iterables are visited before their targets are registered.'),
     'C09': ('imported activity traversal rule restricted to parameter fields (C08)', ''),
     'C10': ('imported binding rules of instantiate (C09: IFACE-BIND, IFACE-INST); guard analysis of every caching call of the unconverted path: remembered decisions depend on (function, options) only; imported option equality rules (C20)', ''),
@@ -152,7 +152,7 @@ ADDENDA = {
     'C16': ('the wrapper is returned on every path of the status decorators; imported cache-key rule (C10): user-requested and recursive conversions are cached apart', ''),
     'C17': ('kinds that force their children to Load; encoding of the module file; provenance of Literal values (TREE-LITERAL); no-__wrapped__ rule on the chain that creates the loaded function; return-case analysis of every statement handler of the tree transformers and attribute-store tracking of shortened user blocks (TREE-NONEMPTY)',
             ' No generated compound statement has an empty statement list: statement handlers never delete a statement, and a shortened user block embedded as a whole body gets a pass.'),
-    'C18': ('path condition of the replacement step excludes Store / Del contexts (ANF-TARGET); the edge-pattern match as a formula over its six tests; wrapper kinds hand (parent, field) on; the pending list is not drained before the while rejection test; imported clean-copy rules of the template machinery (C17)', ''),
+    'C18': ('path condition of the replacement step excludes Store / Del contexts, slices and tuples holding a slice (ANF-TARGET); with-items named from their own loop variable; the edge-pattern match as a formula over its six tests; wrapper kinds hand (parent, field) on; the pending list is not drained before the while rejection test; imported clean-copy rules of the template machinery (C17)', ''),
     'C19': ('totality of the state equality behind the change flag; dropped keys are qualified names; value-type check of the type map; imported CFG rules (C05) and parameter / traversal rules (C08)', ''),
     'C20': ('reaching-definition check that the rendered feature collection is the unmodified parameter; balanced state stack of the functions pass (OPT-FRAME)', ''),
 }
